@@ -152,15 +152,18 @@ RECURSIVE SeqOfSet(_)
 SeqOfSet(s) == IF s = {} THEN <<>>
                ELSE LET m == CHOOSE x \in s : \A y \in s : x <= y IN <<m>> \o SeqOfSet(s \ {m})
 
-\* failAt = 0: no handler failure; otherwise the handler fails (error or panic) when called for failAt
-DelResult(S0, from, to, failAt) ==
+\* failAt = 0: no failure; otherwise, fk = "handler": the OnDelete handler fails (error or panic) when called for failAt;
+\* fk = "timeout": the caller's deadline (95% of it, errDeleteTimeout) has passed when deleteSingle reaches failAt
+DelResult(S0, from, to, failAt, fk) ==
   LET sy      == FlushNil(S0)                                       \* DeleteRange starts with Sync
       S       == sy.mem
       kind    == DelKind(S, from, to)
-      fails   == failAt \in from..(to - 1) /\ Found(S, failAt)
+      fails   == failAt \in from..(to - 1) /\
+                 IF fk = "timeout" THEN \E h \in from..(failAt - 1) : Found(S, h)     \* time passes only while headers are deleted
+                 ELSE Found(S, failAt)
       actual  == IF fails THEN failAt ELSE to                       \* first unprocessed height
       gone    == {h \in from..(actual - 1) : Found(S, h)}           \* headers actually removed
-      calls   == SeqOfSet(gone \cup (IF fails THEN {failAt} ELSE {}))   \* handler invocations, ascending
+      calls   == SeqOfSet(gone \cup (IF fails /\ fk = "handler" THEN {failAt} ELSE {}))   \* handler invocations, ascending
       delws   == IF gone = {} THEN <<>>
                  ELSE IF Ctx THEN <<WDelBatch(gone)>>
                  ELSE LET s == SeqOfSet(gone)
@@ -201,7 +204,7 @@ Proj(S) == [head |-> S.head, tail |-> S.tail, hs |-> S.hs,
             RH |-> {h \in Hs : ByHash(S, h)},
             KH |-> S.dH, KI |-> S.dI, hp |-> S.hp, tp |-> S.tp]
 
-NoLast == [op |-> "none", b |-> <<>>, from |-> 0, to |-> 0, failAt |-> 0, res |-> "ok", calls |-> <<>>,
+NoLast == [op |-> "none", b |-> <<>>, from |-> 0, to |-> 0, failAt |-> 0, fk |-> "", res |-> "ok", calls |-> <<>>,
            gone |-> {}, kind |-> "", ws |-> <<>>]
 
 Init ==
@@ -231,10 +234,12 @@ AppendOp(b) ==
      /\ live' = live \cup Range(b)
      /\ deleted' = deleted \ Range(b)
 
-DeleteOp(from, to, failAt) ==
+DeleteOp(from, to, failAt, fk) ==
   /\ Idle /\ ~dirty
-  /\ LET r == DelResult(St, from, to, failAt) IN
-     /\ Begin([NoLast EXCEPT !.op = "delete", !.from = from, !.to = to, !.failAt = failAt,
+  \* a deadline can only pass while headers are being deleted: some header below failAt must exist
+  /\ (fk = "timeout" => failAt > from /\ \E h \in from..(failAt - 1) : Found(FlushNil(St).mem, h))
+  /\ LET r == DelResult(St, from, to, failAt, fk) IN
+     /\ Begin([NoLast EXCEPT !.op = "delete", !.from = from, !.to = to, !.failAt = failAt, !.fk = fk,
                              !.res = r.res, !.calls = r.calls, !.gone = r.gone, !.kind = r.kind], r.mem, r.ws)
      \* a deletion that fails part-way makes no promise about the rest of its range until it is retried
      /\ live' = IF r.res = "ok" \/ r.kind \notin {"wipe", "tail", "head"} THEN live \ r.gone ELSE live \ (from..(to - 1))
@@ -301,7 +306,8 @@ Crash ==
 Next ==
   \/ \E b \in Batches : AppendOp(b)
   \/ \E from \in 0..(N + 1), to \in 0..(N + 2) :
-        \E f \in (IF Faults THEN {0} \cup (from..(to - 1)) ELSE {0}) : DeleteOp(from, to, f)
+        \E f \in (IF Faults THEN {0} \cup (from..(to - 1)) ELSE {0}) :
+           \E fk \in (IF f = 0 THEN {"handler"} ELSE {"handler", "timeout"}) : DeleteOp(from, to, f, fk)
   \/ SyncOp \/ StopOp \/ StartOp \/ Write \/ Finish \/ Crash
 
 Spec == Init /\ [][Next]_vars
